@@ -110,6 +110,17 @@ def run_case(case):
                 viol.append(('c18:raise:%s' % name, 'Status(0x%04X, %s) raised %r' % (code, name, exc)))
                 continue
             outcomes.add(typ)
+            if cls is not None and (code in svc or code % 4099 == 0):
+                # the response type may be named by an instance of the message (Status(rsp.status, rsp)) or by an application's
+                # subclass of it: same type, same classification
+                for how, other in (('an instance', cls()), ('a subclass', type('App' + cls.__name__, (cls,), {}))):
+                    try:
+                        o = statuses.Status(code, other)
+                        if (o.status_type, _flags(o), int(o)) != (typ, fl, back):
+                            viol.append(('c18:same-type:%s:%04X' % (name, code), 'Status(0x%04X, %s of %s) is %s %r, Status(0x%04X, %s) is %s %r' % (
+                                code, how, name, o.status_type, _flags(o), code, name, typ, fl)))
+                    except Exception as exc:
+                        viol.append(('c18:raise:%s' % name, 'Status(0x%04X, %s of %s) raised %r' % (code, how, name, exc)))
             if sum(1 for f in fl if f) != 1 or typ not in TYPES or not fl[TYPES.index(typ)]:
                 viol.append(('c18:flags:%s:%04X' % (name, code),
                              'Status(0x%04X, %s): status_type=%r flags(success,pending,warning,cancel,failure)=%r'
